@@ -1799,3 +1799,153 @@ def c02_corr(res, exe, driver, tier, seed, tmp):
                 "cursor must be after the last character.")
     for c, impl, model, raw in out[:3]:
         res.samples.append({"keys": c.keys, "cols": c.cols, "impl": " ## ".join(impl)[:300]})
+
+
+# ---------------------------------------------------------------- C19: messages from other threads
+
+def gen_c19(rng, mode):
+    cmds = []
+    insert = True
+    for _ in range(rng.randint(2, 14)):
+        r = rng.random()
+        if mode == "emacs" or insert:
+            if r < 0.6:
+                c = rng.choice(["a", "b", " ", "é", "日", "x", ",", "w"])
+                cmds.append(Cmd([c], "ins", c=ord(c), n=1))
+            elif r < 0.8:
+                cmds.append(Cmd([rng.choice(["Left", "Right", "Home", "End"])], "motion"))
+            elif r < 0.9:
+                cmds.append(Cmd([rng.choice(["Backspace", "C-u", "C-w"])], "edit"))
+            elif mode == "vi":
+                cmds.append(Cmd(["Esc"], "motion"))
+                insert = False
+            else:
+                cmds.append(Cmd(["C-v", "C-j"], "ins", c=LF, n=1))
+        else:
+            if r < 0.6:
+                cmds.append(Cmd([rng.choice(["h", "l", "0", "$", "x"])], "motion"))
+            else:
+                cmds.append(Cmd([rng.choice(["i", "a", "A"])], "motion"))
+                insert = True
+    return cmds
+
+
+def c19_cases(tier, seed):
+    rng = random.Random(seed * 2111 + 43)
+    n = 2000 if tier == "thorough" else 200
+    cases = []
+    for _ in range(n):
+        mode = rng.choice(["emacs", "emacs", "vi"])
+        nthreads = rng.choice([1, 2, 3])
+        cmds = gen_c19(rng, mode) + [Cmd(["F12"], "noop"), Cmd(["Enter"], "enter")]
+        if rng.random() < 0.4:
+            cmds += gen_c19(rng, "emacs" if mode == "emacs" else "vi")[:5] + [Cmd(["F12"], "noop"), Cmd(["Enter"], "enter")]
+        chunks = [b"".join(p_tty.key_bytes(k) for k in cmd.keys) for cmd in cmds]
+        prints, serial = {}, 0
+        for k, cmd in enumerate(cmds):
+            if cmd.tag == "enter":
+                continue           # between reads the editor is not involved (the printer writes directly): not scheduled here
+            if rng.random() < 0.3:
+                lst = []
+                for _ in range(rng.choice([1, 1, 2, 3])):
+                    t = rng.randrange(nthreads)
+                    body = rng.choice(["msg", "日本", "a longer message that wraps around the window edge twice or so", "two\nlines", "é"])
+                    text = "<%d:%d:%s>" % (t, serial, body) + ("\n" if rng.random() < 0.3 else "")
+                    serial += 1
+                    lst.append((t, text))
+                prints[k] = lst
+        c = script_case(cmds, mode=mode, chunks=chunks, cols=rng.choice([80, 40, 20]), prompt=rng.choice(["> ", "日> "]),
+                        timeout=0 if mode == "vi" else rng.choice(["none", 0]), reads=2,
+                        initial=p_tty.mk_initial(rng, 0.2, ["a", "b", " ", "é"]))
+        c.meta["printers"] = nthreads
+        c.meta["prints"] = prints
+        cases.append(c)
+    return cases
+
+
+def eval_c19(res, cases_out, stream, width):
+    stats = {"messages": 0, "scripts_with_messages": 0, "reads": 0, "multi_row_messages": 0}
+    for (c, impl, model, raw) in cases_out:
+        t = Trace(c, impl)
+        prints = c.meta["prints"]
+        allmsgs = [m for k in sorted(prints) for m in prints[k]]
+        if allmsgs:
+            stats["scripts_with_messages"] += 1
+        stats["messages"] += len(allmsgs)
+        acks = [l.split() for l in raw["obs"] if l.startswith("P ")]
+        line = c.model_line(c.chunks)
+        if len(acks) != len(allmsgs) or any(a[3] != "ok" for a in acks):
+            res.oracle_failures.append({"stream": stream, "case": line, "keys": c.keys, "why": "print: %d messages handed over, %d reported done (%s)" % (
+                len(allmsgs), len(acks), [a[3] for a in acks])})
+            continue
+        # everything written to the terminal, interpreted; reads are separated by ESC[?2004l CR LF
+        try:
+            text = [ord(ch) for ch in raw["out"].decode("utf-8")]
+        except UnicodeDecodeError:
+            res.oracle_failures.append({"stream": stream, "case": line, "keys": c.keys, "why": "output is not UTF-8"})
+            continue
+        scr = vt.Screen(c.cols, width)
+        scr.feed(text)
+        rows = scr.text_rows(min(scr.rows) if scr.rows else 0)
+        whole = "\n".join(rows)
+        joined = scr.raw_text()
+        ok = True
+        for (th, m) in allmsgs:
+            tag = m.split(":")[0] + ":" + m.split(":")[1] + ":"
+            cnt = whole.count(tag)
+            if cnt != 1:
+                res.oracle_failures.append({"stream": stream, "case": line, "keys": c.keys,
+                                            "why": "message %r appears %d times on the terminal (screen: %r)" % (m, cnt, rows[-8:])})
+                ok = False
+                break
+            # whole: each of its lines is on the screen, wrapped at the width
+            for part in m.rstrip("\n").split("\n"):
+                flat = part
+                if flat not in joined:
+                    res.oracle_failures.append({"stream": stream, "case": line, "keys": c.keys,
+                                                "why": "message %r is not whole on the terminal (screen: %r)" % (m, rows[-8:])})
+                    ok = False
+                    break
+            if not ok:
+                break
+            if "\n" in m.rstrip("\n") or len(m) > c.cols:
+                stats["multi_row_messages"] += 1
+        if not ok:
+            continue
+        # per-thread order
+        for th in range(c.meta["printers"]):
+            idx = [whole.index(m.split(":")[0] + ":" + m.split(":")[1] + ":") for (t2, m) in allmsgs if t2 == th]
+            if idx != sorted(idx):
+                res.oracle_failures.append({"stream": stream, "case": line, "keys": c.keys,
+                                            "why": "messages of thread %d appear out of order" % th})
+                ok = False
+        # the edited text is unaffected: what each read returned is what the keys alone produce (the model without messages
+        # is not needed: Enter returns the text observed before it)
+        if t.ok:
+            for (cmd, (text0, pos0), after, ob) in t.steps:
+                if cmd.tag == "enter":
+                    stats["reads"] += 1
+                    if after != ("line", text0):
+                        res.oracle_failures.append({"stream": stream, "case": line, "keys": c.keys,
+                                                    "why": "the read did not return the edited text: %s vs %s" % (after, enc(text0))})
+            # after the last message of a read the prompt and line are redrawn below it: the last rows of the screen
+            last = [s for s in t.steps if s[0].tag == "enter"]
+        res.nontrivial.add(line)
+    return stats
+
+
+def c19_corr(res, exe, driver, tier, seed, tmp):
+    cases = c19_cases(tier, seed)
+    out = run_tty_cases(res, exe, driver, cases, tmp, "printer")
+    width = vt.Widths(ud_tables())
+    stats = eval_c19(res, out, "printer", width)
+    res.distribution.update({"oracle": stats, "scripts": len(cases)})
+    res.rule = ("printer: 1-3 printer threads in the child, each with its own ExternalPrinter, print messages (short, multi-byte, "
+                "longer than the window, with embedded and trailing line breaks) on command from the driver at quiescent points of "
+                "emacs/vi scripts -- i.e. while the read waits in select() with no key pending; two reads per script. (i) every byte "
+                "written is compared with the model (Editor.external_print + drain_prints: the message handling of the main loop). "
+                "(ii) an independent emulator interprets everything written: every message must be on the terminal exactly once and "
+                "whole, messages of one thread in the order sent, each print call must have returned Ok, and each read must return "
+                "exactly the text that was being edited.")
+    for c, impl, model, raw in out[:3]:
+        res.samples.append({"keys": c.keys, "prints": {str(k): v for k, v in c.meta["prints"].items()}, "impl": " ## ".join(impl)[:300]})
